@@ -83,6 +83,8 @@ func checkGuards(c *Ctx, rule string, guards []guardSpec) {
 }
 
 func runC10(c *Ctx) {
+	c.Rule("R10", "memory of an object recycled through a sync.Pool never leaves its Get/Put window (returned, stored outside the function, sent)", 1)
+	poolEscapes(c, "R10", []string{"api/apihttp", "balloon", "balloon/history", "balloon/hyper", "balloon/cache", "consensus", "protocol"})
 	c.Rule("R1", "guarded-by table: every access under the owning mutex on every call path", 12)
 	c.Rule("R3", "every Lock/RLock is released on every exit (deferred or explicit)", 10)
 	c.Rule("R4", "the store write persisting an insertion runs under a lock that every query path takes", 1)
